@@ -49,7 +49,11 @@ class RandomVectorizedStrategy(vb.VectorizedStrategy[None]):
 
     self._suggestion_batch_size = suggestion_batch_size
     self.n_feature_dimensions_with_padding = n_feature_dimensions_with_padding
-    self.n_feature_dimensions = n_feature_dimensions_with_padding
+    # The optimizer zeroes the columns beyond these counts (feature padding).
+    self.n_feature_dimensions = types.ContinuousAndCategorical(
+        len(converter.output_specs.continuous),
+        len(converter.output_specs.categorical),
+    )
     self.dtype = types.ContinuousAndCategorical(jnp.float64, types.INT_DTYPE)
 
     self._categorical_logits = None
@@ -88,13 +92,20 @@ class RandomVectorizedStrategy(vb.VectorizedStrategy[None]):
             self.n_feature_dimensions_with_padding.continuous,
         ),
     )
+    n_categorical_padded = self.n_feature_dimensions_with_padding.categorical
     if self._categorical_logits is None:
       cat_data = jnp.zeros(
-          [self._suggestion_batch_size, n_parallel, 0], dtype=jnp.int32
+          [self._suggestion_batch_size, n_parallel, n_categorical_padded],
+          dtype=jnp.int32,
       )
     else:
       cat_data = tfd.Categorical(logits=self._categorical_logits).sample(
           (self._suggestion_batch_size, n_parallel), seed=cat_seed
+      )
+      # Fill the padded categorical columns.
+      cat_data = jnp.pad(
+          cat_data,
+          ((0, 0), (0, 0), (0, n_categorical_padded - cat_data.shape[-1])),
       )
     return vb.VectorizedOptimizerInput(cont_data, cat_data)
 
